@@ -286,6 +286,10 @@ SHADOW = [
     ('defvar p = 1; multiclass M<int p> { def _a { int x = p; } }', [("p", 2, "p", 1)], "multiclass-template-argument-over-global-defvar"),
     ('class A { int p = 0; } multiclass M<int p> { def _a : A { int x = p; } }', [("p", 2, "p", 0)], "inherited-field-over-multiclass-template-argument"),
     ('class A; defset list<A> v = { def in_v : A; } class B<int v> { int w = v; } def d { list<A> l = v; }', [("v", 2, "v", 1), ("v", 3, "v", 0)], "template-argument-over-defset-then-defset"),
+    # several parents: the first parent (with everything it inherits) is asked before the second
+    ('class Base { int f = 1; } class Mid : Base; class Other { int f = 2; } class Leaf : Mid, Other { int g = f; }', [("f", 2, "f", 0)], "first-parents-inherited-field-over-second-parents-own"),
+    ('class Base { int f = 1; } class Mid : Base; class Other { int f = 2; } def D : Mid, Other; def E { int s = D.f; }', [("f", 2, "f", 0)], "field-access-first-parents-inherited-field"),
+    ('class Base { int f = 1; } class Mid : Base; class Other { int f = 2; } class Leaf : Other, Mid { int g = f; }', [("f", 2, "f", 1)], "first-parents-own-field-over-second-parents-inherited"),
     # a variable of an OUTER bang operator, used inside an inner one, against a template argument / inherited field / own field
     # of the same name (every scope between the use and the record counts, not only the innermost); llvm-tblgen rejects an
     # iteration variable named like a FIELD of the record, so only template arguments and accumulators collide here
